@@ -23,6 +23,7 @@ WHAT_FOR = {
     "C15": ("serialize", "deserialize"),
     "C19": ("init", "shape", "deserialize"),
     "C03": ("deserialize",),
+    "C01": ("roundtrip",),
 }
 
 
@@ -39,6 +40,8 @@ def obligation_properties(name, kind, info, fn):
         if kind == "frame":
             return {"C19"}
         return {"C02", "C16"}           # loop invariants carry both the bytes and the validity prefix
+    if fn.endswith(".roundtrip"):
+        return {"C01"}
     if fn.endswith(".deserialize"):
         if kind in ("mode-restored", "mode-restored-on-raise"):
             return {"C15"}
@@ -129,6 +132,9 @@ def _work_batch(args):
                         obls += pv.shape_obligations(decl)
                     else:
                         ex = getattr(pv, "verify_" + w)(decl)
+                        if ex is None:          # class outside this verification's fragment (roundtrip)
+                            res.setdefault("skipped", []).append((name, w))
+                            continue
                         obls += ex.order
                 except Unsupported as u:
                     res["unsupported"].append((name, w, str(u)))
